@@ -334,6 +334,11 @@ where
         T: From<VarInt> + PartialOrd<T> + Copy,
         VarInt: From<T>,
     {
+        // A connection which already failed reports that error, it can not be shut down anymore
+        if let Some(err) = self.get_conn_error() {
+            return Err(self.handle_connection_error(err));
+        }
+
         if let Some(sent_id) = sent_closing {
             if *sent_id <= max_id {
                 return Ok(());
